@@ -22,12 +22,13 @@ ASSUMPTIONS = [
     'file semantics: a write()/truncate() issued through the file object reaches the disk image in program order; at a kill, any '
     'prefix of the operations issued since the last flush()/close() may have reached it (over-approximates Python\'s in-order '
     'user-space buffering); writes through the memory map reach the image immediately',
-    'payload rows are distinct tagged values; the store code never inspects payload (control flow is payload-independent), so the '
-    'verdict for these tags stands for every payload - this part is parametricity, not a solver result, and is said so',
+    'payload rows are distinct tagged values; the store code never inspects payload values (control flow is payload-independent), '
+    'so the verdict for these tags stands for every payload - this part is parametricity, not a solver result, and is said so; '
+    'what the code can observe of a batch besides its values - dtype, shape, memory layout (C / Fortran / strided view) - is a solver-chosen dimension of the configuration',
     'a single write() or memory-map assignment is atomic (torn writes outside)',
 ]
 OUTSIDE = ['power loss / fsync', 'scripts longer than the bound', 'OutputPool.save/open pickling of the pool object',
-           'Fortran-ordered files']
+           'files whose header says fortran_order=True']
 
 
 # ------------------------------------------------------------------ in-memory file system
@@ -198,12 +199,23 @@ def env(fs):
 
 # ------------------------------------------------------------------ harness
 
-CONFIGS = [('f8', (), 1), ('f8', (2,), 2), ('i4', (), 2), ('f8', (2,), 1), ('i4', (3,), 2)]
+# (dtype, row shape, batch size[, memory layout of the batches handed to the store])
+CONFIGS = [('f8', (), 1), ('f8', (2,), 2), ('i4', (), 2), ('f8', (2,), 1), ('i4', (3,), 2),
+           ('f8', (2,), 2, 'F'), ('i4', (3,), 2, 'F'), ('f8', (2,), 2, 'strided'), ('i4', (), 2, 'strided')]
 
 
-def batch_data(tag, dtype, rowshape, bs):
+def batch_data(tag, dtype, rowshape, bs, layout='C'):
     n = int(np.prod((bs,) + rowshape))
-    return (np.arange(n, dtype=dtype) + 100 * tag).reshape((bs,) + rowshape)
+    a = (np.arange(n, dtype=dtype) + 100 * tag).reshape((bs,) + rowshape)
+    if layout == 'F':
+        a = np.asfortranarray(a)              # same values, column-major in memory (e.g. x.T of a transposed result)
+        assert not a.flags['C_CONTIGUOUS']
+    elif layout == 'strided':
+        big = np.zeros((2 * bs,) + rowshape, dtype=dtype) - 1
+        big[::2] = a
+        a = big[::2]                          # a non-contiguous view
+        assert not a.flags['C_CONTIGUOUS']
+    return a
 
 
 def load_image(img):
@@ -229,6 +241,7 @@ OPS = ('append', 'overwrite', 'delete_last', 'clear', 'flush', 'reopen', 'pickle
 def h_store(ctx, n_ops, ops=OPS, configs=None):
     cfg = (configs or CONFIGS)[ctx.choice('config', len(configs or CONFIGS))]
     dtype, rowshape, bs = np.dtype(cfg[0]), cfg[1], cfg[2]
+    layout = cfg[3] if len(cfg) > 3 else 'C'
     fs = MemFS()
     name = 'store_file.npy'
     model = []            # list of batches (arrays): the logical content
@@ -240,7 +253,7 @@ def h_store(ctx, n_ops, ops=OPS, configs=None):
 
     def fresh():
         tag[0] += 1
-        return batch_data(tag[0], dtype, rowshape, bs)
+        return batch_data(tag[0], dtype, rowshape, bs, layout)
 
     def logical():
         return model_array(model, dtype, rowshape)
@@ -349,10 +362,10 @@ def h_store(ctx, n_ops, ops=OPS, configs=None):
 
 
 HARNESSES = [
-    H('script2', h_store, dict(n_ops=2), bounds='init+flush, then every script of 2 ops from %s; 5 dtype/row-shape/batch-size configs; '
+    H('script2', h_store, dict(n_ops=2), bounds='init+flush, then every script of 2 ops from %s; 9 dtype/row-shape/batch-size/memory-layout configs; '
                                                'kill after every low-level write/truncate' % (OPS,), witness=False),
-    H('script3', h_store, dict(n_ops=3), bounds='every script of 3 ops; 5 configs', witness=False),
-    H('script4_two_configs', h_store, dict(n_ops=4, configs=CONFIGS[:2]), bounds='every script of 4 ops; 2 configs', witness=False,
+    H('script3', h_store, dict(n_ops=3), bounds='every script of 3 ops; 9 configs', witness=False),
+    H('script4_two_configs', h_store, dict(n_ops=4, configs=[CONFIGS[0], CONFIGS[1], CONFIGS[5]]), bounds='every script of 4 ops; 3 configs', witness=False,
       tiers=('thorough',)),
     H('script5_one_config', h_store, dict(n_ops=5, configs=CONFIGS[1:2]), bounds='every script of 5 ops; 1 config', witness=False,
       tiers=('thorough',), max_paths=400000),
